@@ -949,6 +949,26 @@ def r_mag(E):
                 other = par.comparators[0] if par.left is top else par.left
                 if isinstance(other, ast.Constant) and other.value == 0:
                     verdict = "sign / zero test (scale-invariant)"
+            # 2b. … compared with zero by a comparison picked from a class-level table of operator functions:
+            #     sign_test = self.SIGN_TESTS[kind] … sign_test(x.magnitude, 0)
+            if verdict is None:
+                pc = n
+                while pc is not None and not (isinstance(pc, ast.Call) and isinstance(pc.func, ast.Name)) \
+                        and not isinstance(pc, ast.stmt):
+                    pc = getattr(pc, "_parent", None)
+                if isinstance(pc, ast.Call) and isinstance(pc.func, ast.Name) and len(pc.args) == 2 and not pc.keywords \
+                        and any(isinstance(a_, ast.Constant) and a_.value == 0 for a_ in pc.args) and cls is not None:
+                    from ..astutil import single_assignments as _sa_m
+                    bound = _sa_m(fn).get(pc.func.id)
+                    tab = bound.value if isinstance(bound, ast.Subscript) else (
+                        bound.func.value if isinstance(bound, ast.Call) and isinstance(bound.func, ast.Attribute)
+                        and bound.func.attr == "get" else None)
+                    if isinstance(tab, ast.Attribute) and isinstance(tab.value, ast.Name) and tab.value.id in ("self", "cls"):
+                        _, tv = pm._class_const(cls.name, tab.attr)
+                        if isinstance(tv, ast.Dict) and tv.values and all(
+                                isinstance(x_, ast.Attribute) and isinstance(x_.value, ast.Name) and x_.value.id == "operator"
+                                and x_.attr in ("ge", "gt", "le", "lt", "eq", "ne") for x_ in tv.values):
+                            verdict = "sign / zero test through a table of comparison operators (scale-invariant)"
             # 3. value emitted next to its own unit (serialisation)
             if verdict is None:
                 d = n
